@@ -21,6 +21,7 @@ from harness.core import to_dec
 
 H_STEP = 2.0 ** -7
 G7 = ('get_CvoR', 'get_CpoR', 'get_UoRT', 'get_HoRT', 'get_SoR', 'get_FoRT', 'get_GoRT')
+OPT_SKIPS = []
 GNAME = {'q': 'get_q', 'Cv': 'get_CvoR', 'Cp': 'get_CpoR', 'U': 'get_UoRT', 'H': 'get_HoRT',
          'S': 'get_SoR', 'F': 'get_FoRT', 'G': 'get_GoRT'}
 
@@ -278,6 +279,37 @@ def exec_config(case):
             events.append({'ev': 'verbose_sel', 'g': g, 'tot': to_dec(tot), 'tot0': to_dec(tot0),
                            'parts': [to_dec(x) for x in parts], 'parts0': [to_dec(x) for x in parts0],
                            'selref': to_dec(sr)})
+        # option combinations on a twin species that carries a References object (an enthalpy offset):
+        # the defining relations under every (use_references, S_elements) combination, dimensionless and in J/mol
+        if k == 0:
+            from pmutt.empirical.references import References
+            off = {el: rnd.uniform(-3.0, 3.0) for el in elements}
+            T_ref = rnd.choice([298.15, 500.0, rnd.uniform(200, 900)])
+            sp_ref = StatMech(name='spr', trans_model=modes['trans'], vib_model=modes['vib'], rot_model=modes['rot'],
+                              elec_model=modes['elec'], nucl_model=modes['nucl'], elements=elements,
+                              references=References(offset=dict(off), T_ref=T_ref))
+            rows = []
+            try:
+                for ur in (True, False):
+                    for se in (True, False):
+                        kw = {'T': T, 'P': P, 'use_references': ur}
+                        kws = dict(kw, S_elements=se)
+                        rows.append({'ur': ur, 'se': se,
+                                     'G': to_dec(float(sp_ref.get_GoRT(**kws))), 'H': to_dec(float(sp_ref.get_HoRT(**kw))),
+                                     'S': to_dec(float(sp_ref.get_SoR(**kws))), 'U': to_dec(float(sp_ref.get_UoRT(**kw))),
+                                     'F': to_dec(float(sp_ref.get_FoRT(**kws))),
+                                     'Gd': to_dec(float(sp_ref.get_G(units='J/mol', **kws))),
+                                     'Hd': to_dec(float(sp_ref.get_H(units='J/mol', **kw))),
+                                     'Sd': to_dec(float(sp_ref.get_S(units='J/mol/K', **kws))),
+                                     'Ud': to_dec(float(sp_ref.get_U(units='J/mol', **kw))),
+                                     'Fd': to_dec(float(sp_ref.get_F(units='J/mol', **kws)))})
+            except (TypeError, AttributeError, ValueError) as ex:
+                # a mode without q (no F) etc.: the plain species raises the same way and is judged elsewhere
+                rows = None
+                OPT_SKIPS.append(type(ex).__name__)
+            if rows is not None:
+                refoff = -sum(off[el] * n for el, n in elements.items()) * T_ref / T
+                events.append({'ev': 'opt', 'T': to_dec(T), 'refoff': to_dec(refoff), 'rows': rows})
         for slot in order:
             kind = cfg[slot]
             if kind in ('Empty', 'EmptyNucl'):
@@ -464,6 +496,10 @@ def run(ctx):
         traces.append((tid, events))
         if tid % 401 == 0:
             ctx.sample(case)
+    n_opt = sum(1 for _, evs in traces for e in evs if e.get('ev') == 'opt')
+    ctx.coverage['option_events_with_references'] = n_opt
+    if ctx.replay_case is None and n_opt < 50:
+        raise core.MachineryError('vacuous run: only %d option events (species with a References object)' % n_opt)
     fails, stats = core.validate_traces('Trace_StatMech', 'Trace', traces)
     ctx.count('traces_validated_against_impl', len(traces))
     ctx.coverage['trace_lines'] = stats['lines']
